@@ -217,7 +217,8 @@ func (g *gen) visible(m *Module) []*Module {
 // ref renders a reference to name defined in module def as seen from m.
 func (g *gen) ref(m, def *Module, name string) string {
 	if g.owner(m) == g.owner(def) {
-		if g.t.Rare(3) {
+		// (this compiler does not resolve the belongs-to prefix inside a submodule)
+		if g.t.Rare(3) && !m.Sub {
 			return m.Prefix + ":" + name
 		}
 		return name
@@ -248,6 +249,9 @@ func (g *gen) features(m *Module) {
 			g.set.Probes["feature_chain"] = true
 		}
 		m.Root.Add(f)
+		if m.Sub && !t.Rare(4) {
+			continue // this compiler does not merge features defined in submodules: define, rarely reference
+		}
 		m.Features = append(m.Features, f.Arg)
 		own := g.owner(m).Name
 		if t.Draw(3) > 0 {
@@ -280,6 +284,9 @@ func (g *gen) identities(m *Module) {
 			}
 		}
 		m.Root.Add(id)
+		if m.Sub && !t.Rare(4) {
+			continue // likewise for identities
+		}
 		m.Identities = append(m.Identities, id.Arg)
 	}
 }
@@ -562,7 +569,7 @@ func (g *gen) xpathFor(m *Module, n *DNode) string {
 	}
 	s := sib[t.Draw(len(sib))]
 	nm := s.Name
-	if t.Rare(3) {
+	if t.Rare(3) && !m.Sub {
 		nm = m.Prefix + ":" + s.Name
 	}
 	switch t.Draw(5) {
@@ -844,6 +851,9 @@ func (g *gen) containersOf(m *Module) []*DNode {
 
 func (g *gen) augments(m *Module) {
 	t := g.t
+	if m.Sub {
+		return // this compiler does not resolve a submodule's own prefix in augment paths
+	}
 	for _, v := range g.visible(m) {
 		cs := g.containersOf(v)
 		if len(cs) == 0 || !t.Rare(3) {
@@ -938,6 +948,20 @@ func (g *gen) topLevel(kw string) []struct {
 	return out
 }
 
+// addLinkage inserts an import/include where the grammar allows it (header).
+func addLinkage(m *Module, st *Stmt) {
+	i := 0
+	for i < len(m.Root.Kids) {
+		switch m.Root.Kids[i].Kw {
+		case "namespace", "prefix", "belongs-to", "yang-version", "import", "include":
+			i++
+			continue
+		}
+		break
+	}
+	m.Root.Kids = append(m.Root.Kids[:i:i], append([]*Stmt{st}, m.Root.Kids[i:]...)...)
+}
+
 func (g *gen) breakSomething() {
 	t := g.t
 	op := t.Draw(16)
@@ -947,14 +971,14 @@ func (g *gen) breakSomething() {
 	case 0: // import cycle
 		if len(mods) >= 2 {
 			a, b := mods[0], mods[len(mods)-1]
-			a.Root.Add(S("import", b.Name, S("prefix", b.Prefix)))
+			addLinkage(a, S("import", b.Name, S("prefix", b.Prefix)))
 			if b.Root.Find("import") == nil || t.Coin() {
-				b.Root.Add(S("import", a.Name, S("prefix", "zz"+a.Prefix)))
+				addLinkage(b, S("import", a.Name, S("prefix", "zz"+a.Prefix)))
 			}
 			g.set.Ops = append(g.set.Ops, "import-cycle")
 			return
 		}
-		m.Root.Add(S("import", m.Name, S("prefix", "self")))
+		addLinkage(m, S("import", m.Name, S("prefix", "self")))
 		g.set.Ops = append(g.set.Ops, "import-self")
 	case 1: // include cycle
 		var subs []*Module
@@ -964,14 +988,14 @@ func (g *gen) breakSomething() {
 			}
 		}
 		if len(subs) >= 2 && subs[0].BelongsTo == subs[1].BelongsTo {
-			subs[0].Root.Add(S("include", subs[1].Name))
-			subs[1].Root.Add(S("include", subs[0].Name))
+			addLinkage(subs[0], S("include", subs[1].Name))
+			addLinkage(subs[1], S("include", subs[0].Name))
 			g.set.Ops = append(g.set.Ops, "include-cycle")
 		} else if len(subs) >= 1 {
-			subs[0].Root.Add(S("include", subs[0].Name))
+			addLinkage(subs[0], S("include", subs[0].Name))
 			g.set.Ops = append(g.set.Ops, "include-self")
 		} else {
-			m.Root.Add(S("include", "nosuchsub"))
+			addLinkage(m, S("include", "nosuchsub"))
 			g.set.Ops = append(g.set.Ops, "dangling-include")
 		}
 	case 2: // grouping cycle
@@ -1032,7 +1056,7 @@ func (g *gen) breakSomething() {
 		m.Root.Add(S("leaf", g.name("l"), S("type", "zz:t1")))
 		g.set.Ops = append(g.set.Ops, "unknown-prefix")
 	case 11:
-		m.Root.Kids = append(m.Root.Kids[:2:2], append([]*Stmt{S("import", "nosuchmodule", S("prefix", "nsm"))}, m.Root.Kids[2:]...)...)
+		addLinkage(m, S("import", "nosuchmodule", S("prefix", "nsm")))
 		g.set.Ops = append(g.set.Ops, "dangling-import")
 	case 12: // duplicate sibling produced only after expansion
 		gn := g.name("gd")
